@@ -411,7 +411,12 @@ def build_trace(sc: dict, gens: list, ref: Reference):
             rec = dict(BLANK)
             rec["e"], rec["killed"] = "crash", bool(g["killed"] or g.get("unclean"))
             evs.append(rec)
-    return {"freq": sc["freq"], "keep": sc["keep"], "isasync": sc["isasync"], "freq0": sc["freq"] == 0,
+    # does the scenario use its second directory only as the new directory of restores that switch checkpointing off?
+    allops = [o for g in sc["gens"] for o in g["ops"]]
+    newdir_ops = [o for o in allops if o.get("new_dir")]
+    bunused = bool(newdir_ops) and all(o.get("freq") == 0 for o in newdir_ops) and not any(o["op"] == "copy" for o in allops) \
+        and not sc.get("default_dir")
+    return {"freq": sc["freq"], "keep": sc["keep"], "isasync": sc["isasync"], "freq0": sc["freq"] == 0, "bunused": bunused,
             "fullconfig": sc["fullconfig"], "expectpolicy": sc["kind"] == "PI", "hadcrash": hadcrash,
             "refconv": ref.conv if ref.conv is not None else -5, "resumedconverged": resumed_converged,
             "ev": evs}
